@@ -2200,27 +2200,19 @@ class ResetIndex(Elemwise):
         if isinstance(parent, Filter) and self._filter_passthrough_available(
             parent, dependents
         ):
-            parents = [
-                p().columns
-                for p in dependents[self._name]
-                if p() is not None and not isinstance(p(), Filter)
-            ]
-            predicate = None
-            if not set(flatten(parents, list)).issubset(set(self.frame.columns)):
-                # one of the filters is the Index
-                name = self.operand("name")
-                if name is no_default and self.frame._meta.index.name is None:
-                    name = "index"
-                elif self.frame._meta.index.name is not None:
-                    name = self.frame._meta.index.name
-                # replace the projection of the former index with the actual index
-                subs = Projection(self, name)
-                predicate = parent.predicate.substitute(subs, Index(self.frame))
-            elif self.frame.ndim == 1 and not self.operand("drop"):
-                name = self.frame._meta.name
-                # Avoid Projection since we are already a Series
-                subs = Projection(self, name)
-                predicate = parent.predicate.substitute(subs, self.frame)
+            predicate = parent.predicate
+            if not self.operand("drop"):
+                # Translate the columns that the reset added: the former index
+                # comes first, the values of a Series last
+                if self.frame.ndim == 1:
+                    subs = Projection(self, self.columns[-1])
+                    predicate = predicate.substitute(subs, self.frame)
+                subs = Projection(self, self.columns[0])
+                predicate = predicate.substitute(subs, Index(self.frame))
+            predicate = predicate.substitute(self, self.frame)
+            if any(expr._name == self._name for expr in predicate.walk()):
+                # still reads the reset frame
+                return
             return self._filter_simplification(parent, predicate)
 
         if isinstance(parent, Projection):
